@@ -205,5 +205,13 @@ def run_case(spec, ctx):
             alias = ctx.call(model.cdf, batch)
             ctx.check(alias[0] and np.array_equal(np.asarray(alias[1]), whole, equal_nan=True),
                       'cdf.alias', 'C06:alias-differs', where)
+    # instance reuse: an instance re-parameterised by assignment behaves like a fresh one -------------------
+    reused, th0 = biv.reused_model(fam, th, rng)
+    fresh = biv.make_model(fam, th)
+    R = biv.interior_points(rng, 40)
+    ok_r, a = ctx.call(reused.cumulative_distribution, R)
+    ok_f, b = ctx.call(fresh.cumulative_distribution, R)
+    ctx.check(ok_r and ok_f and (biv.ulps(a, b) <= 8).all(), 'instance-reuse', 'C06:cdf-depends-on-instance-history',
+              lambda: dict(where, previous_theta=th0))
     ctx.sample({'family': fam, 'theta': th, 'grid_points': 256, 'rectangles': n,
                 'reference_points': len(P)})
